@@ -38,17 +38,16 @@ void *memchr(const void *s, int c, size_t n)
         return NULL;
 }
 
-int snprintf(char *s, size_t n, const char *fmt, ...)
+/* every call in cat.c has the shape snprintf(buf, len, fmt, (uint32_t)val); the proof build maps it
+ * to this fixed-arity model (dfcc cannot pass its write set through a variadic call) */
+#define snprintf model_snprintf
+int model_snprintf(char *s, size_t n, const char *fmt, unsigned int v)
 {
-        va_list ap;
         char t[16];
         size_t len = 0, i;
         int kind = model_fmt_kind(fmt);
         __CPROVER_assert(kind >= 0, "snprintf model: format string is one of %d %u %02X 0x%02X 0x%04X 0x%08X");
         __CPROVER_assert(n == 0 || __CPROVER_w_ok(s, n), "snprintf: n bytes are writable at s");
-        va_start(ap, fmt);
-        unsigned int v = va_arg(ap, unsigned int);
-        va_end(ap);
         if (kind <= 1) {
                 unsigned long long mag = v;
                 size_t off = 0;
